@@ -141,7 +141,10 @@ func runReplay(cfg Config) {
 	defer tf.Close()
 	p := *cfg.Program
 	folder := filepath.Join(cfg.Data, "replay")
-	os.RemoveAll(folder)
+	keep := os.Getenv("VERIF_REPLAY_KEEP") != "" // continue on the folder an earlier process left (cold caches)
+	if !keep {
+		os.RemoveAll(folder)
+	}
 	env := sopenv.New(folder, decor.NewHub())
 	env.Hub.Record = cfg.BackendOut != ""
 	r := &Runner{Env: env, Rec: &Recorder{}, MaxTime: 2 * time.Minute}
@@ -167,5 +170,7 @@ func runReplay(cfg Config) {
 		childAudit(r, folder, p.Stores)
 	}
 	tf.Write("replay", r.Rec.Take(), map[string]any{"program": p})
-	os.RemoveAll(folder)
+	if !keep {
+		os.RemoveAll(folder)
+	}
 }
